@@ -565,6 +565,26 @@ Proof.
     rewrite (Hk W1 N1), (IHr W2 N2). reflexivity.
 Qed.
 
+(* the full invariant contains the numbers check *)
+Lemma wf_nums caps : forall x, wfb (fun k => zmem k caps) x = true -> nums_b caps x = true.
+Proof.
+  induction x as [t o ch m n str st kids IH] using rnode_ind'. intros W.
+  rewrite wfb_eq in W. rewrite nums_b_eq. apply andb_prop in W. destruct W as [K WK]. apply andb_true_intro. split.
+  - unfold knd, gq in K. pose proof (kcls_inv t) as INV. destruct (kcls t) eqn:KC; try discriminate;
+      try (assert (NT : (t =? T_Capture) = false /\ (t =? T_Ref) = false /\ (t =? T_BackRefCond) = false)
+             by (unfold T_Capture, T_Ref, T_BackRefCond; lia); destruct NT as [-> [-> ->]]; reflexivity).
+    + apply andb_prop in K. destruct K as [_ K]. destruct (t =? T_Ref) eqn:ER.
+      * assert (t = 13) by (unfold T_Ref in ER; lia). subst t. cbn in K |- *. exact K.
+      * assert (NT : (t =? T_Capture) = false /\ (t =? T_BackRefCond) = false) by (unfold T_Capture, T_BackRefCond; lia).
+        destruct NT as [-> ->]. reflexivity.
+    + destruct kids as [|k [|k2 r]]; try discriminate. destruct (t =? T_Capture) eqn:EC.
+      * cbn [negb orb] in K. exact K.
+      * assert (NT : (t =? T_Ref) = false /\ (t =? T_BackRefCond) = false) by (unfold T_Ref, T_BackRefCond; lia). destruct NT as [-> ->]. reflexivity.
+    + subst t. cbn in K |- *. destruct kids as [|k [|k2 [|k3 r]]]; try discriminate; exact K.
+  - clear K. induction IH as [|k r Hk _ IHr]; [reflexivity|]. cbn [forallb] in *. apply andb_prop in WK. destruct WK as [W1 W2].
+    rewrite (Hk W1), (IHr W2). reflexivity.
+Qed.
+
 Section EndToEnd.
 Variable is_word_char : Z -> bool.
 Variable to_lower : Z -> Z.
@@ -629,6 +649,27 @@ Proof.
   destruct (parsed_caps_table is_word_char to_lower simple_fold participates cat_in cat_name o mco_flag ptxt t caps captop E) as [CS [CZ [CN CB]]].
   exists body. split; [exact ER|]. unfold runs_as_spec.
   exact (tree_end_to_end caps captop (n_o t) body CS CZ CN (CB HT) S T R).
+Qed.
+
+(* the invariants on the parser's own tree *)
+Theorem parsed_tree_shape_root o mco_flag p t caps captop :
+  parse o mco_flag p = Ok (PR_Tree t caps captop) ->
+  wfb (fun _ => true) t = true /\ n_t t = T_Capture /\ n_m t = 0 /\ n_n t = -1.
+Proof.
+  intros E. split; [exact (parse_tree_shape is_word_char to_lower simple_fold participates cat_in cat_name o mco_flag p t caps captop E)|].
+  exact (parse_tree_root is_word_char to_lower simple_fold participates cat_in cat_name o mco_flag p t caps captop E).
+Qed.
+
+Theorem parsed_tree_nums o mco_flag p t caps captop :
+  (forall c, is_word_char c = true -> negb (zmem c [33; 35; 39; 40; 41; 45; 60; 61; 62; 63; 91; 92]) = true) ->
+  (forall c, (49 <=? c) && (c <=? 57) = true -> is_word_char c = true) ->
+  useE o = false -> captop < maxint32 ->
+  parse o mco_flag p = Ok (PR_Tree t caps captop) ->
+  wfb (fun k => zmem k caps) t = true /\ nums_b caps t = true.
+Proof.
+  intros HW HD HE HT E.
+  pose proof (parse_tree_wf is_word_char to_lower simple_fold participates cat_in cat_name HW HD o mco_flag p t caps captop HE HT E) as W.
+  split; [exact W | apply wf_nums; exact W].
 Qed.
 
 End EndToEnd.
